@@ -72,7 +72,12 @@ def main():
     for name, diff, rev, checks in jobs:
         d = scratch()
         try:
-            apply(d, diff, reverse=rev)
+            try:
+                apply(d, diff, reverse=rev)
+            except SystemExit as e:
+                print(f"SKIPPED {name}: patch does not apply ({str(e)[:120]})")
+                results[name] = {"_skipped": {"exit": -1, "violations": 0, "first": "patch does not apply to the current tree"}}
+                continue
             r = run_checks(d, checks, tier)
         finally:
             shutil.rmtree(d, ignore_errors=True)
@@ -83,6 +88,8 @@ def main():
             print(f"{'CAUGHT' if caught else 'MISSED'}  {name:45s} {c}: exit={o['exit']} violations={o['violations']}  {o['first'][:160]}")
     os.makedirs(os.path.join(ROOT, "out"), exist_ok=True)
     json.dump(results, open(os.path.join(ROOT, "out", "selftest.json"), "w"), indent=1)
+    if mode == "all":
+        json.dump(results, open(os.path.join(ROOT, "seeded", "selftest_results.json"), "w"), indent=1, sort_keys=True)
     sys.exit(0 if ok else 1)
 
 
